@@ -243,7 +243,7 @@ LEN_EDGE = [0, 1, 31, 32, 33, 40]
 @prop("C03", ["hostname/SSID lengths are concrete per query (boundary set in quick, the C04 grid covers all); everything else symbolic"])
 def c03(tier, seed):
     pairs = [(0, 0), (32, 32), (40, 1)] if tier == "quick" else [(h, s) for h in LEN_EDGE for s in (0, 32, 40)]
-    return [q_discover(h, s) for (h, s) in pairs] + [q_sweep(tier)]
+    return [q_discover(h, s) for (h, s) in pairs] + [q_sweep(tier), q_qltlv("alltypes_576"), q_query(tier, 2), q_emit_loop(576)]
 
 
 @prop("C04", ["hostname/SSID source lengths are case-split by the driver (concrete per query); quick: 6x6 boundary pairs, thorough: full 41x41 grid; all other attributes symbolic inside each query",
@@ -259,6 +259,7 @@ def c04(tier, seed):
         be = [(h, s) for h in LEN_EDGE for s in LEN_EDGE]
     qs += [q_discover(h, s) for (h, s) in pairs]
     qs += [q_discover(h, s, big_endian=True) for (h, s) in be]
+    qs += q_rel(0, only=["discover"])       # attributes the platform cannot supply: whatever is emitted is at least determined (not stale memory)
     qs.append(Query("c04_linux_getters", "c04_linuxport.c", "h_linux_getters", unwind=8, backends=("minisat", "cadical"), safety_for=("C01", "C04"),
                     bounds={"network_interface_t": "every field symbolic (MAC 2^48, MTU/ifType/LinkSpeed/MediumType/flags 2^32)"},
                     desc="os/linux/lltd_port.c getters vs the interface record: copy / conversion / bit mapping"))
@@ -396,7 +397,7 @@ def q_pair(K=2, query=False):
 @prop("C10", ["one descriptor per query (an Emit is a sequence of independent sendProbeMsg calls - C06); B's earlier observations (unrelated traffic) arbitrary but without this (Ethernet source, real source) pair, K bound stated",
               "delivery unmodified: the 32 captured bytes are copied to the head of B's MTU-sized receive buffer, remaining bytes arbitrary"])
 def c10(tier, seed):
-    qs = [q_pair(2), q_pair(2, query=True), q_emit_send(), q_query(tier, 5, frame_n=100, name="query_smallmtu"), q_probe(tier, 2)]
+    qs = [q_pair(2), q_pair(2, query=True), q_emit_send(), q_query(tier, 5, frame_n=100, name="query_smallmtu"), q_probe(tier, 2), q_discover(1, 1, K=2)]
     if tier == "thorough":
         qs += [q_pair(6), q_pair(6, query=True)]
     return qs
